@@ -185,6 +185,12 @@ CallOf(e) ==
 
 \* entries the contract expects in multi-entry file p, as stored lines
 ExpectedBody(v) == Escape(v.vl)
+\* The stored lines are the value's lines; a line equal to the terminator must be stored as
+\* something else (WHICH token is the implementation's choice, replay decides whether it works).
+BodyOK(body, v) ==
+  \/ body = Escape(v.vl)
+  \/ /\ Len(body) = Len(v.vl)
+     /\ \A i \in DOMAIN body : body[i] = v.vl[i] \/ (v.vl[i] = END /\ body[i] # END)
 
 \* compare one multi-entry file with the contract's slots for it
 FileMismatches(pr, p, sl, od, target) ==
@@ -194,7 +200,7 @@ FileMismatches(pr, p, sl, od, target) ==
    \o SetToSeq({MM("entry.missing", "", "", "", p, h, IF h = target THEN "target" ELSE "other") : h \in hs \ fhs})
    \o SetToSeq({MM("entry.extra", "", "", "", p, h, IF h = target THEN "target" ELSE "other") : h \in fhs \ hs})
    \o SetToSeq({MM("entry.value", "", "", "", p, h, IF h = target THEN "target" ELSE "other") :
-                 h \in {h \in hs \cap fhs : sl[<<p, h>>].known /\ BodyOf(pr, h) # ExpectedBody(sl[<<p, h>>])}})
+                 h \in {h \in hs \cap fhs : sl[<<p, h>>].known /\ ~BodyOK(BodyOf(pr, h), sl[<<p, h>>])}})
    \o (IF pr.wellformed /\ hs = fhs /\ pr.order # Get(od, p, <<>>)
        THEN <<MM("entry.order", "", "", "", p, "", "")>> ELSE <<>>)
 
